@@ -528,6 +528,17 @@ def g_delta(ctx, rng, i):
     for _ in range(30):
         idx = tuple(int(x) for x in r.integers(0, n, size=2 * p))
         ctx.judge("delta.entry", int(d.array[idx]) == int(ref[idx]), [n, p, list(idx)], what="entry differs", op="KroneckerDelta[idx]")
+    # histories: the tensors are cached per process -- the same and the swapped sizes are requested again, in this order, and every
+    # tensor handed out must still equal its definition (delta(p, n) with p < n is the zero tensor of shape (p,)*2n)
+    seq = [(p, n), (n, p)] + [(a, b) for a in range(2, 5) for b in range(2, 5) if a != b and a ** (2 * b) <= 70000][: 4 + i % 3] + [(p, n), (n, p)]
+    for a, b in seq:
+        if a ** (2 * b) > 70000 or a < 1 or b < 1:
+            continue
+        t = KroneckerDelta(a, b)
+        rf = _delta_ref(a, b)
+        ok = t.array.shape == rf.shape and np.array_equal(t.array, rf) and t.tensor_shape == (b, b)
+        ctx.judge("delta", bool(ok), [a, b, n, p], what=f"delta({a},{b}) requested after delta({n},{p}) differs from its definition (shape {t.array.shape}, expected {rf.shape})",
+                  op="KroneckerDelta (history)", nontrivial=True)
 
 
 def g_identities(ctx, rng, i):
